@@ -67,9 +67,18 @@ impl<'a> FieldsGen<'a> {
             for __item in __items {
                 match *__item {
                     ::darling::export::NestedMeta::Meta(ref __inner) => {
-                        let __name = ::darling::util::path_to_string(__inner.path());
-                        // A keyword can only be written as a raw identifier: `r#type` names `type`.
-                        match __name.strip_prefix("r#").unwrap_or(__name.as_str()) {
+                        // A keyword can only be written as a raw identifier: `r#type` names `type`,
+                        // in whichever segment of the name it stands.
+                        let __name = __inner
+                            .path()
+                            .segments
+                            .iter()
+                            .map(|__s| ::darling::export::ToString::to_string(
+                                &::darling::export::syn::ext::IdentExt::unraw(&__s.ident),
+                            ))
+                            .collect::<::darling::export::Vec<_>>()
+                            .join("::");
+                        match __name.as_str() {
                             #(#arms)*
                             __other => { #handle_unknown }
                         }
